@@ -34,6 +34,253 @@ def known(rel):
   return set(_KNOWN.get(rel, ())) if rel in _KNOWN else None
 
 
+_SHAPES = None
+
+
+def known_shapes(rel):
+  global _SHAPES
+  if _SHAPES is None:
+    p = pathlib.Path(__file__).resolve().parent.parent / 'fixtures' / 'known_shapes.json'
+    _SHAPES = json.loads(p.read_text()) if p.exists() else {}
+  return _SHAPES.get(rel, {})
+
+
+_ASSIGNS = None
+
+
+def known_assigns(rel):
+  global _ASSIGNS
+  if _ASSIGNS is None:
+    p = pathlib.Path(__file__).resolve().parent.parent / 'fixtures' / 'known_assigns.json'
+    _ASSIGNS = json.loads(p.read_text()) if p.exists() else {}
+  return set(_ASSIGNS[rel]) if rel in _ASSIGNS else None
+
+
+def module_assigned(tree):
+  """names bound by assignment statements at module level (any nesting of
+  if/try), with the number of bindings"""
+  out = {}
+
+  def rec(stmts):
+    for s in stmts:
+      if isinstance(s, ast.Assign):
+        for t in s.targets:
+          for n in ast.walk(t):
+            if isinstance(n, ast.Name):
+              out[n.id] = out.get(n.id, 0) + 1
+      elif isinstance(s, (ast.AnnAssign, ast.AugAssign)) and isinstance(s.target, ast.Name):
+        out[s.target.id] = out.get(s.target.id, 0) + 1
+      elif isinstance(s, (ast.If, ast.Try, ast.With, ast.For, ast.While)):
+        for f in ('body', 'orelse', 'finalbody'):
+          rec(getattr(s, f, []) or [])
+        for h in getattr(s, 'handlers', []) or []:
+          rec(h.body)
+  rec(tree.body)
+  return out
+
+
+def _literal(e):
+  if isinstance(e, ast.Constant):
+    return True
+  if isinstance(e, ast.Tuple):
+    return all(_literal(x) for x in e.elts)
+  if isinstance(e, ast.Call) and isinstance(e.func, ast.Name) and e.func.id == 'frozenset' \
+      and len(e.args) == 1 and not e.keywords and isinstance(
+          e.args[0], (ast.Tuple, ast.List, ast.Set)):
+    return all(_literal(x) for x in e.args[0].elts)
+  return False
+
+
+def inline_new_constants(tree, rel):
+  """A private module-level name that the reference tree does not have, bound
+  once to an immutable literal (a constant, a tuple of constants), is replaced
+  by that literal wherever a function reads it: "name the magic value" is
+  behaviour preserving and the rules look at the value."""
+  ka = known_assigns(rel)
+  if ka is None:
+    return 0
+  counts = module_assigned(tree)
+  consts = {}
+  for s in tree.body:
+    if isinstance(s, ast.Assign) and len(s.targets) == 1 and isinstance(
+        s.targets[0], ast.Name):
+      n = s.targets[0].id
+      if n.startswith('_') and not n.startswith('__') and n not in ka and \
+          counts.get(n) == 1 and _literal(s.value):
+        consts[n] = s.value
+  if not consts:
+    return 0
+  for n in ast.walk(tree):
+    if isinstance(n, ast.Global):
+      for g in n.names:
+        consts.pop(g, None)
+  done = [0]
+
+  class R(ast.NodeTransformer):
+    def __init__(self):
+      self.shadow = [set()]
+
+    def visit_FunctionDef(self, f):
+      loc = {a.arg for a in f.args.posonlyargs + f.args.args + f.args.kwonlyargs}
+      if f.args.vararg:
+        loc.add(f.args.vararg.arg)
+      if f.args.kwarg:
+        loc.add(f.args.kwarg.arg)
+      loc |= _stores(f)
+      self.shadow.append(self.shadow[-1] | loc)
+      self.generic_visit(f)
+      self.shadow.pop()
+      return f
+
+    def visit_Lambda(self, f):
+      loc = {a.arg for a in f.args.posonlyargs + f.args.args + f.args.kwonlyargs}
+      self.shadow.append(self.shadow[-1] | loc)
+      self.generic_visit(f)
+      self.shadow.pop()
+      return f
+
+    def visit_Name(self, x):
+      if isinstance(x.ctx, ast.Load) and x.id in consts and x.id not in self.shadow[-1] \
+          and len(self.shadow) > 1:
+        done[0] += 1
+        return ast.copy_location(copy.deepcopy(consts[x.id]), x)
+      return x
+  R().visit(tree)
+  ast.fix_missing_locations(tree)
+  return done[0]
+
+
+def scoped_functions(tree):
+  """{qualname: FunctionDef} of module-level functions and methods."""
+  out = {}
+  for s in tree.body:
+    if isinstance(s, ast.FunctionDef):
+      out[s.name] = s
+    elif isinstance(s, ast.ClassDef):
+      for m in s.body:
+        if isinstance(m, ast.FunctionDef):
+          out[s.name + '.' + m.name] = m
+  return out
+
+
+def arity(fn):
+  a = fn.args
+  return len(a.posonlyargs) + len(a.args) + len(a.kwonlyargs)
+
+
+def shape(fn):
+  """Hash of the body with parameters and locals numbered in order of first
+  appearance and the docstring dropped: equal for alpha-equivalent bodies."""
+  import hashlib
+  names = {}
+  params = [a.arg for a in fn.args.posonlyargs + fn.args.args + fn.args.kwonlyargs]
+  local = set(params) | _stores(fn)
+  for p in params:
+    names[p] = 'v%d' % len(names)
+
+  class C(ast.NodeTransformer):
+    def visit_Name(self, n):
+      if n.id in local:
+        names.setdefault(n.id, 'v%d' % len(names))
+        return ast.Name(id=names[n.id], ctx=n.ctx)
+      return n
+
+    def visit_arg(self, n):
+      if n.arg in local:
+        names.setdefault(n.arg, 'v%d' % len(names))
+        return ast.arg(arg=names[n.arg], annotation=None)
+      return n
+  f2 = copy.deepcopy(fn)
+  f2.body = _strip_doc(f2.body) or [ast.Pass()]
+  f2.name = '_'
+  f2.decorator_list = []
+  f2 = C().visit(f2)
+  ast.fix_missing_locations(f2)
+  return hashlib.sha1(ast.unparse(f2).encode()).hexdigest()[:16]
+
+
+def referrers(tree):
+  """{identifier: {qualnames of functions whose body mentions it}}"""
+  out = {}
+  for q, f in scoped_functions(tree).items():
+    for n in ast.walk(f):
+      if isinstance(n, ast.Name):
+        out.setdefault(n.id, set()).add(q)
+      elif isinstance(n, ast.Attribute):
+        out.setdefault(n.attr, set()).add(q)
+  return out
+
+
+def rename_back(tree, rel):
+  """A private function of the reference tree that is gone, and a new private
+  function in the same scope that is the same function under another name
+  (alpha-equivalent body; or same arity and referred to from exactly the
+  functions that referred to the old one): the new name is replaced by the old
+  one throughout the module.  Returns {new: old}."""
+  kn = known(rel)
+  sh = known_shapes(rel)
+  if kn is None or not sh:
+    return {}
+  cur = scoped_functions(tree)
+  gone = [q for q in kn if q not in cur and q.split('.')[-1].startswith('_')
+          and not q.split('.')[-1].startswith('__') and q in sh]
+  new = [q for q in cur if q not in kn and q.split('.')[-1].startswith('_')
+         and not q.split('.')[-1].startswith('__')]
+  if not gone or not new:
+    return {}
+  refs = referrers(tree)
+  idents = set(refs)
+  for n in ast.walk(tree):
+    if isinstance(n, ast.Constant) and isinstance(n.value, str):
+      idents.add(n.value)
+  ren = {}
+  taken = set()
+  for g in sorted(gone):
+    scope = g.rsplit('.', 1)[0] if '.' in g else ''
+    gname = g.split('.')[-1]
+    if gname in idents:
+      continue            # the old name is still mentioned: not a plain rename
+    cands = [q for q in new if (q.rsplit('.', 1)[0] if '.' in q else '') == scope
+             and q not in taken]
+    exact = [q for q in cands if shape(cur[q]) == sh[g]['hash']]
+    pick = None
+    if len(exact) == 1:
+      pick = exact[0]
+    elif not exact:
+      # the old name's referrers, with renamed referrers mapped back
+      want = set(sh[g]['callers']) - {g}
+      same = [q for q in cands if arity(cur[q]) == sh[g]['arity'] and want and
+              {ren_q for ren_q in (refs.get(q.split('.')[-1], set()) - {q})} == want]
+      if len(same) == 1:
+        pick = same[0]
+    if pick is not None:
+      taken.add(pick)
+      ren[pick.split('.')[-1]] = gname
+  if not ren:
+    return {}
+  # every occurrence of a new name must be the function (no clash with locals
+  # or attributes of other objects): accept only names that were absent before
+  class R(ast.NodeTransformer):
+    def visit_FunctionDef(self, n):
+      if n.name in ren:
+        n.name = ren[n.name]
+      self.generic_visit(n)
+      return n
+
+    def visit_Name(self, n):
+      if n.id in ren:
+        n.id = ren[n.id]
+      return n
+
+    def visit_Attribute(self, n):
+      self.generic_visit(n)
+      if n.attr in ren:
+        n.attr = ren[n.attr]
+      return n
+  R().visit(tree)
+  return ren
+
+
 def _has(node, kinds):
   return any(isinstance(n, kinds) for n in ast.walk(node))
 
@@ -139,6 +386,10 @@ def _simple(e):
     return True
   if isinstance(e, ast.Attribute):
     return _simple(e.value)
+  if isinstance(e, ast.Subscript) and isinstance(e.slice, ast.Constant):
+    return _simple(e.value)
+  if isinstance(e, ast.Tuple):
+    return all(_simple(x) for x in e.elts)     # an immutable literal of pure reads
   return False
 
 
@@ -188,7 +439,13 @@ def _expand(fn, call, is_method, how, target, line):
   mapping = {}
   subst = {}
   pre = []
+  # `a, b = helper(...)` where the helper ends in `return x, y` (its own
+  # locals): the helper's locals *are* the caller's variables -- rename them to
+  # the targets instead of copying through temporaries
+  direct = _direct_targets(fn, body, stores, bound, call, target) if how == 'assign' else None
   for p, a in bound.items():
+    if direct and p in direct:
+      continue             # `x = helper(x, ...)`: the parameter is the target itself
     if _simple(a) and p not in stores:
       subst[p] = a
     else:
@@ -198,6 +455,8 @@ def _expand(fn, call, is_method, how, target, line):
   for s in stores:
     if s not in mapping:
       mapping[s] = s + tag
+  if direct:
+    mapping.update(direct)
   ren = _Rename(mapping, subst)
   body = [ren.visit(s) for s in body]
 
@@ -207,8 +466,11 @@ def _expand(fn, call, is_method, how, target, line):
     last = stmts[-1]
     if isinstance(last, ast.Return):
       v = last.value if last.value is not None else ast.Constant(None)
-      if how == 'assign':
-        rep = [ast.Assign(targets=copy.deepcopy(target), value=v)]
+      if how == 'assign' and direct:
+        rep = []
+      elif how == 'assign':
+        rep = _split_tuple_assign(target, v) or [
+            ast.Assign(targets=copy.deepcopy(target), value=v)]
       elif how == 'return':
         rep = [ast.Return(value=v)]
       else:
@@ -237,6 +499,135 @@ def _expand(fn, call, is_method, how, target, line):
     ast.copy_location(s, line)
     ast.fix_missing_locations(s)
   return out or [ast.copy_location(ast.Pass(), line)]
+
+
+def _split_tuple_assign(target, v):
+  """`a, b = e1, e2` as `a = e1; b = e2` when no later element reads an earlier
+  target (then both orders of evaluation give the same result)."""
+  if not target or len(target) != 1 or not isinstance(target[0], (ast.Tuple, ast.List)) \
+      or not isinstance(v, ast.Tuple) or len(v.elts) != len(target[0].elts):
+    return None
+  ts = target[0].elts
+  if not all(isinstance(t, ast.Name) for t in ts) or any(
+      isinstance(e, ast.Starred) for e in v.elts):
+    return None
+  for i, t in enumerate(ts):
+    for e in v.elts[i + 1:]:
+      if any(isinstance(n, ast.Name) and n.id == t.id for n in ast.walk(e)):
+        return None
+  return [ast.Assign(targets=[ast.Name(id=t.id, ctx=ast.Store())], value=e)
+          for t, e in zip(ts, v.elts)]
+
+
+def _returns(stmts, out):
+  for s in stmts:
+    if isinstance(s, ast.Return):
+      out.append(s)
+    for f in ('body', 'orelse', 'finalbody'):
+      b = getattr(s, f, None)
+      if isinstance(b, list) and b and isinstance(b[0], ast.stmt):
+        _returns(b, out)
+    for h in getattr(s, 'handlers', []) or []:
+      _returns(h.body, out)
+  return out
+
+
+def _direct_targets(fn, body, stores, bound, call, target):
+  """{helper local: caller target name} when every return of the helper returns
+  the same plain locals and renaming them to the targets is exact."""
+  if not target or len(target) != 1:
+    return None
+  t = target[0]
+  if isinstance(t, ast.Name):
+    tnames = [t.id]
+  elif isinstance(t, (ast.Tuple, ast.List)) and t.elts and all(
+      isinstance(e, ast.Name) for e in t.elts):
+    tnames = [e.id for e in t.elts]
+  else:
+    return None
+  if len(set(tnames)) != len(tnames):
+    return None
+  rets = _returns(body, [])
+  if not rets or not _always_returns(body):
+    return None
+  shapes = set()
+  for r in rets:
+    v = r.value
+    if isinstance(t, ast.Name):
+      if not isinstance(v, ast.Name):
+        return None
+      shapes.add((v.id,))
+    else:
+      if not isinstance(v, ast.Tuple) or not all(isinstance(e, ast.Name) for e in v.elts):
+        return None
+      shapes.add(tuple(e.id for e in v.elts))
+  if len(shapes) != 1:
+    return None
+  locs = list(shapes.pop())
+  if len(locs) != len(tnames) or len(set(locs)) != len(locs):
+    return None
+  params = {a.arg for a in fn.args.args + fn.args.kwonlyargs}
+  for l, tn in zip(locs, tnames):
+    if l not in stores:
+      return None
+    # a parameter may be returned only when it was given the target itself:
+    # `x = helper(x, ...)` -- the helper then works on x in place
+    if l in params and not (isinstance(bound.get(l), ast.Name) and bound[l].id == tn):
+      return None
+  # the target names must not be visible inside the helper in any other role
+  used = {n.id for n in ast.walk(fn) if isinstance(n, ast.Name)}
+  for p, a in list(bound.items()):
+    if p in locs:
+      continue
+    used |= {n.id for n in ast.walk(a) if isinstance(n, ast.Name)}
+  if any(tn in used and tn not in locs for tn in tnames):
+    return None
+  if any(tn in locs and locs[i] != tn for i, tn in enumerate(tnames)):
+    return None
+  return dict(zip(locs, tnames))
+
+
+def _fold_constant_ifs(stmts):
+  """`if True: A else: B` -> A  (after a constant argument was substituted)"""
+  out = []
+  for s in stmts:
+    for f in ('body', 'orelse', 'finalbody'):
+      b = getattr(s, f, None)
+      if isinstance(b, list) and b and isinstance(b[0], ast.stmt):
+        setattr(s, f, _fold_constant_ifs(b) or ([ast.Pass()] if f == 'body' else []))
+    if isinstance(s, ast.If) and isinstance(s.test, ast.Constant):
+      out.extend(s.body if s.test.value else s.orelse)
+    else:
+      out.append(s)
+  return out
+
+
+def view(fn, cls_node, module_tree, depth=3, keep=()):
+  """A copy of `fn` in which calls of eligible private helpers (methods of its
+  class through self, module-level functions) are expanded, known or new, and
+  conditions that became constant are folded: what the function does, whichever
+  way its work is split into helpers."""
+  helpers_mod = {s.name: s for s in module_tree.body
+                 if isinstance(s, ast.FunctionDef) and s.name.startswith('_')
+                 and not s.name.startswith('__') and s is not fn and s.name not in keep
+                 and eligible(s, False)}
+  helpers_cls = {}
+  cname = None
+  if cls_node is not None:
+    cname = cls_node.name
+    helpers_cls[cname] = {m.name: m for m in cls_node.body
+                          if isinstance(m, ast.FunctionDef) and m.name.startswith('_')
+                          and not m.name.startswith('__') and m is not fn
+                          and m.name not in keep and eligible(m, True)}
+  f2 = copy.deepcopy(fn)
+  inl = _Inliner(helpers_mod, helpers_cls)
+  for _ in range(depth):
+    before = inl.count
+    f2.body = _fold_constant_ifs(inl.block(f2.body, cname)) or [ast.Pass()]
+    if inl.count == before:
+      break
+  ast.fix_missing_locations(f2)
+  return f2
 
 
 class _Inliner:
@@ -352,6 +743,8 @@ def apply(tree, rel):
   """Inlines helpers that are new with respect to the reference tree, then
   removes pure aliases.  Returns the number of call sites rewritten (tree is
   modified in place)."""
+  rename_back(tree, rel)
+  inline_new_constants(tree, rel)
   n = _apply_helpers(tree, rel)
   _Idioms().visit(tree)
   import os
@@ -367,6 +760,58 @@ class _Idioms(ast.NodeTransformer):
   """Spelling variants with one meaning, brought to one form:
        x.get(k, None) -> x.get(k)          set((a,)) / set([a]) -> {a}
        getattr(x, 'name') -> x.name        setattr(x, 'name', v) -> x.name = v"""
+
+  def visit_FunctionDef(self, n):
+    self.__dict__.setdefault('_fns', []).append(n)
+    self.generic_visit(n)
+    self._fns.pop()
+    return n
+
+  def visit_For(self, n):
+    # for v in ('a', 'b'): BODY  ==  BODY[v:='a']; BODY[v:='b']   (constants
+    # only, no break/continue/else, v not rebound, v not used afterwards is not
+    # required: the unrolled form assigns nothing, so a later read of v is kept
+    # correct by a trailing `v = <last>`)
+    def _elem_ok(e):
+      if isinstance(e, ast.Constant):
+        return isinstance(e.value, (str, int, bool, type(None)))
+      return _simple(e)          # a plain name / attribute chain: a pure read
+    elem_names = {x.id for e in getattr(n.iter, 'elts', []) for x in ast.walk(e)
+                  if isinstance(x, ast.Name)}
+    if isinstance(n.iter, (ast.Tuple, ast.List)) and 0 < len(n.iter.elts) <= 8 and all(
+        _elem_ok(e) for e in n.iter.elts) and isinstance(n.target, ast.Name) and \
+        not n.orelse and len(n.body) <= 6 and not any(
+            isinstance(x, (ast.Break, ast.Continue, ast.FunctionDef, ast.Lambda,
+                           ast.ClassDef, ast.Yield, ast.YieldFrom))
+            or (isinstance(x, ast.Name) and (x.id == n.target.id or x.id in elem_names)
+                and not isinstance(x.ctx, ast.Load))
+            for b in n.body for x in ast.walk(b)):
+      v = n.target.id
+      out = []
+      for e in n.iter.elts:
+        class R(ast.NodeTransformer):
+          def visit_Name(self, x):
+            if x.id == v and isinstance(x.ctx, ast.Load):
+              return ast.copy_location(copy.deepcopy(e), x)
+            return x
+        for b in n.body:
+          out.append(R().visit(copy.deepcopy(b)))
+      fn = self._fns[-1] if getattr(self, '_fns', None) else None
+      loads = lambda root: sum(1 for x in ast.walk(root) if isinstance(x, ast.Name)
+                               and x.id == v and isinstance(x.ctx, ast.Load))
+      if fn is None or loads(fn) > loads(n):
+        # the variable is read after the loop: it keeps its last value
+        out.append(ast.Assign(targets=[ast.Name(id=v, ctx=ast.Store())],
+                              value=copy.deepcopy(n.iter.elts[-1])))
+      res = []
+      for st in out:
+        ast.copy_location(st, n)
+        ast.fix_missing_locations(st)
+        r = self.visit(st)
+        res.extend(r if isinstance(r, list) else [r])
+      return res
+    self.generic_visit(n)
+    return n
 
   def visit_Expr(self, n):
     self.generic_visit(n)
@@ -424,25 +869,9 @@ def _apply_helpers(tree, rel):
     return 0
   helpers_mod = {}
   helpers_cls = {}
-  # a reference function that is gone means something was renamed or removed in
-  # that scope: a "new" private helper there may just be the old one under a new
-  # name, and must keep its identity
-  present = set()
+  # (a reference function that was merely renamed has got its name back in
+  # rename_back, so every private function that is still unknown here is new)
   for s in tree.body:
-    if isinstance(s, ast.FunctionDef):
-      present.add(s.name)
-    elif isinstance(s, ast.ClassDef):
-      for m in s.body:
-        if isinstance(m, ast.FunctionDef):
-          present.add(s.name + '.' + m.name)
-  gone = kn - present
-  gone_mod = any('.' not in g for g in gone)
-  gone_cls = {g.split('.')[0] for g in gone if '.' in g}
-  for s in tree.body:
-    if isinstance(s, ast.FunctionDef) and gone_mod:
-      continue
-    if isinstance(s, ast.ClassDef) and s.name in gone_cls:
-      continue
     if isinstance(s, ast.FunctionDef) and s.name.startswith('_') and \
         not s.name.startswith('__') and s.name not in kn and eligible(s, False):
       helpers_mod[s.name] = s
@@ -470,6 +899,24 @@ def _apply_helpers(tree, rel):
       for m in s.body:
         if isinstance(m, ast.FunctionDef) and m.name not in helpers_cls.get(s.name, {}):
           m.body = inl.block(m.body, s.name)
+  # a helper with no remaining reference is dead after inlining: the rules
+  # have seen its statements at every call site already
+  refs = set()
+  for n in ast.walk(tree):
+    if isinstance(n, ast.Name):
+      refs.add(n.id)
+    elif isinstance(n, ast.Attribute):
+      refs.add(n.attr)
+    elif isinstance(n, ast.Constant) and isinstance(n.value, str):
+      refs.add(n.value)
+  tree.body = [s for s in tree.body
+               if not (isinstance(s, ast.FunctionDef) and s.name in helpers_mod
+                       and s.name not in refs)]
+  for s in tree.body:
+    if isinstance(s, ast.ClassDef):
+      s.body = [m for m in s.body
+                if not (isinstance(m, ast.FunctionDef) and m.name in helpers_cls.get(s.name, {})
+                        and m.name not in refs)] or [ast.Pass()]
   ast.fix_missing_locations(tree)
   return inl.count
 
